@@ -65,10 +65,22 @@ func Profile(name string, seed int64, tier string) HistOpts {
 			w[t] = 60
 		}
 		o.Weights = w
-		o.Gen = GenOpts{Candidates: 104, ValidatorN: 4}
+		o.Gen = GenOpts{Candidates: 104, ValidatorN: 4, ExtraPK: 24}
 		o.CheckTx = false
 		o.Malformed = 2
 		o.TxPerBlk = 3
+		o.RankDance = 35 // newcomers with large / boundary stakes, delegations and unbonds around rank 100 inside every period
+	case "restarting": // mixed traffic on a disk node that is stopped and reopened after about a quarter of the commits, with the driver attached
+		w := DefaultWeights()
+		for _, t := range []tx.TxType{tx.TypeEditCoinOwner, tx.TypeEditCandidate, tx.TypeEditMultisig, tx.TypeCreateMultisig, tx.TypeMintToken, tx.TypeCreateToken, tx.TypeRecreateToken, tx.TypeRecreateCoin, tx.TypeEditCandidatePublicKey, tx.TypeEditCandidateCommission} {
+			w[t] = 25
+		}
+		o.Weights = w
+		o.Node.Disk = true
+		o.Restarts = 25
+		o.OwnerDance = 20 // ticker hand-overs, then the new and the former owner act (same block, later blocks, after restarts)
+		o.Malformed = 3
+		o.CheckTx = false
 	case "governance": // many votes for near heights while the validator set keeps changing
 		w := DefaultWeights()
 		for _, t := range []tx.TxType{tx.TypeSetHaltBlock, tx.TypeVoteUpdate, tx.TypeVoteCommission} {
